@@ -33,6 +33,9 @@ def conds(tier):
         dict(module=M, function='individuals_regrouping_nonadjacent', timeout=170 * f,
              what='nodes 1->ind0, (0,2)->ind1'),
         dict(module=M, function='individuals_regrouping_haploid', timeout=170 * f, what='three haploid individuals'),
+        dict(module=M, function='monomorphic_site', timeout=60 * f, what='site with a single allele, with/without missing calls: ALT is "."'),
+        dict(module=M, function='position_transform_and_masks', timeout=170 * f,
+             what='3 sites, callable transform (halving) so that several sites map to 0, every mask: error rule and POS'),
         dict(module=M, function='legacy_transform', timeout=60 * f, what='legacy position transform strictly increasing, >= 1'),
     ]
 
